@@ -469,6 +469,11 @@ def is_nf(m, top=True) -> bool:
     """the normal form C15 names"""
     if isinstance(m, (AnyMarker, EmptyMarker)):
         return top
+    if isinstance(m, (EqualityMarkerUnion, InequalityMultiMarker)):
+        # an atom GROUP has at least two distinct values: with one it would be an atom that is not `==` to the atom it
+        # renders as, with none a universal / empty marker that does not say so (seed C15g)
+        vals = list(m.values)
+        return len(vals) >= 2 and len(set(vals)) == len(vals)
     if isinstance(m, SingleMarker):
         return True
     if isinstance(m, (MultiMarker, MarkerUnion)):
